@@ -192,6 +192,32 @@ func normalize(t *Term) *Term {
 				}
 			}
 		}
+		// comparison of two integer literals
+		if _, isCmp := negCmp[t.Name]; isCmp {
+			if x, ok := constInt(a); ok {
+				if y, ok := constInt(b); ok {
+					var v bool
+					switch t.Name {
+					case "<":
+						v = x < y
+					case "<=":
+						v = x <= y
+					case ">":
+						v = x > y
+					case ">=":
+						v = x >= y
+					case "==":
+						v = x == y
+					case "!=":
+						v = x != y
+					}
+					if v {
+						return C("true")
+					}
+					return C("false")
+				}
+			}
+		}
 		// comparison of a boolean with a literal: x == true => x, x == false => !x
 		if t.Name == "==" || t.Name == "!=" {
 			for i := 0; i < 2; i++ {
@@ -230,6 +256,31 @@ func normalize(t *Term) *Term {
 				return C("true")
 			}
 		}
+	case OpIndex:
+		// element k of a finite literal sequence
+		if len(t.Args) == 2 {
+			if k, ok := constInt(StripConv(t.Args[1])); ok && k >= 0 {
+				if els, ok := SeqElems(t.Args[0]); ok && int(k) < len(els) {
+					return els[k]
+				}
+			}
+		}
+	case OpField:
+		// field of a struct value
+		if len(t.Args) == 1 {
+			if x := StripConv(t.Args[0]); x.Op == OpStruct {
+				for _, fi := range x.Args {
+					if fi.Op == OpFInit && fi.Name == t.Name && len(fi.Args) == 1 {
+						return fi.Args[0]
+					}
+				}
+			}
+		}
+	case OpCall:
+		// a.Before(b) is b.After(a), exactly (time.Time compares instants both ways)
+		if t.Name == "(time.Time).Before" && len(t.Args) == 2 {
+			return &Term{Op: OpCall, Name: "(time.Time).After", Args: []*Term{t.Args[1], t.Args[0]}, Pos: t.Pos, Typ: t.Typ, Val: t.Val}
+		}
 	case OpConcat:
 		var flat []*Term
 		for _, a := range t.Args {
@@ -245,6 +296,9 @@ func normalize(t *Term) *Term {
 		t.Args = flat
 	case OpLen:
 		x := StripConv(t.Args[0])
+		if els, ok := SeqElems(x); ok {
+			return &Term{Op: OpConst, Name: fmt.Sprint(len(els)), Pos: t.Pos, Typ: t.Typ}
+		}
 		switch x.Op {
 		case OpCopyOf:
 			return normalize(&Term{Op: OpLen, Args: []*Term{x.Args[0]}, Pos: t.Pos, Typ: t.Typ})
@@ -365,3 +419,52 @@ func unquote(s string) (string, error) {
 
 // Not negates a boolean term.
 func Not(t *Term) *Term { return normalize(&Term{Op: OpUn, Name: "!", Args: []*Term{t}, Pos: t.Pos}) }
+
+// SeqElems returns the elements of a slice value that is a finite literal
+// sequence: a full slice of an array literal, or a concatenation of such.
+func SeqElems(t *Term) ([]*Term, bool) {
+	t = StripConv(t)
+	switch t.Op {
+	case OpSlice:
+		if len(t.Args) == 3 && t.Args[1].IsConst("") && t.Args[2].IsConst("") {
+			a := StripConv(t.Args[0])
+			if a.Op == OpArray {
+				return a.Args, true
+			}
+		}
+	case OpConcat:
+		var out []*Term
+		for _, p := range t.Args {
+			els, ok := SeqElems(p)
+			if !ok {
+				return nil, false
+			}
+			out = append(out, els...)
+		}
+		return out, true
+	}
+	return nil, false
+}
+
+// Subst rebuilds t with every subterm for which f returns non-nil replaced,
+// re-normalising on the way up.
+func Subst(t *Term, f func(*Term) *Term) *Term {
+	if r := f(t); r != nil {
+		return r
+	}
+	if len(t.Args) == 0 {
+		return t
+	}
+	changed := false
+	args := make([]*Term, len(t.Args))
+	for i, a := range t.Args {
+		args[i] = Subst(a, f)
+		if args[i] != a {
+			changed = true
+		}
+	}
+	if !changed {
+		return t
+	}
+	return normalize(&Term{Op: t.Op, Name: t.Name, Args: args, Pos: t.Pos, Typ: t.Typ, Val: t.Val, Ctx: t.Ctx})
+}
